@@ -121,3 +121,36 @@ def unrounded_unary(r, cls, a):
 def is_binary64_rne(c):
     """IEEE 754 binary64, round to nearest even: the context of a call from Python without a context"""
     return cls_name(c) == 'IEEEContext' and c.es == 11 and c.nbits == 64 and c.rm.name == 'RNE'
+
+
+# ---------------------------------------------------------------------------
+# P3: emitted code of a `with` block (semantics.rst E-With)
+
+def assign_of(st, ntargets):
+    return cons_name(st) == 'Assign' and len(st.targets) == ntargets
+
+
+def with_block(r, target_code, ctx_code, body_len, stash_text):
+    """try: <tmp> = __ctx__; __ctx__ = __fpy_real; <target> = __ctx__ = <ctx>; <body>  finally: __ctx__ = <tmp>"""
+    is_try = cons_name(r) == 'Try'
+    shape = is_try and len(r.handlers) == 0 and len(r.orelse) == 0 and len(r.finalbody) == 1
+    s0 = r.body[0] if shape else None
+    s1 = r.body[1] if shape else None
+    s2 = r.body[2] if shape else None
+    fin = r.finalbody[0] if shape else None
+    stash_ok = shape and assign_of(s0, 1) and cons_name(s0.targets[0]) == 'Name' and cons_name(s0.targets[0].ctx) == 'Store' \
+        and is_name(s0.value, '__ctx__', 'Load')
+    restore_ok = shape and assign_of(fin, 1) and is_name(fin.targets[0], '__ctx__', 'Store') \
+        and cons_name(fin.value) == 'Name' and cons_name(fin.value.ctx) == 'Load'
+    return {
+        'is_try_finally': shape,
+        'body_len': (len(r.body) == 3 + body_len) if shape else False,
+        'stash_active_context_first': stash_ok,
+        'constructor_under_real': (assign_of(s1, 1) and is_name(s1.targets[0], '__ctx__', 'Store')
+                                   and is_name(s1.value, '__fpy_real', 'Load')) if shape else False,
+        'bind_target_and_activate': (assign_of(s2, 2) and s2.targets[0] == target_code
+                                     and is_name(s2.targets[1], '__ctx__', 'Store') and s2.value == ctx_code) if shape else False,
+        'restore_in_finally': restore_ok,
+        'restore_reads_the_stash': (fin.value.id == s0.targets[0].id) if (stash_ok and restore_ok) else False,
+        'stash_name_is_the_fresh_identifier': (s0.targets[0].id == stash_text) if stash_ok else False,
+    }
